@@ -164,9 +164,9 @@ example : (SJ.Gen.routeRef.lookup "deserialize_char") = some "->deserialize_str"
     re-parse of the key text, for arbitrary key strings), `f64` targets and float values (need the link between `scanNumber`
     and `ryu`'s text under `FloatsRoundTrip`), `Value` targets (C01-completeness over `runPfx` started on padding frames),
     `arbitrary_precision` (literal-backed numbers). The text is the one the serializer model writes (`c03_value`). -/
-theorem c16_text_agrees_partial (mcfg : Model.Machine.Cfg) (_hap : mcfg.ap = false) (src : Model.Machine.Src)
+theorem c16_text_agrees_partial (mcfg : Model.Machine.Cfg) (hap : mcfg.ap = false) (src : Model.Machine.Src)
     (ext : Spec.Program.Ext) (hext : Spec.Program.ExtOK ext) (ext' : Ext) (s : Schema) (hs : Proofs.Typed.agreeFrag2 s = true)
-    (v : JV) (hv : Spec.WF.shapeOK {} v = true ∧ Spec.WF.noFloat v = true)
+    (v : JV) (hv : Spec.WF.shapeOK (Proofs.CanonM.specCfg mcfg) v = true ∧ Spec.WF.noFloat v = true)
     (hx : v.hasArrayPayload s.structVariantNames = false)
     (hd : mcfg.limitOff = true ∨ Spec.WF.depthJV v ≤ 127) :
     ∃ bufs, Model.Ser.serCompact ext (Model.Ser.ofValue v) = .ok bufs ∧
@@ -179,10 +179,10 @@ theorem c16_text_agrees_partial (mcfg : Model.Machine.Cfg) (_hap : mcfg.ap = fal
   rw [htext]
   have hag := Proofs.Typed.agree_all ext hext (env := { cfg := mcfg, src := src }) rfl
     { po := mcfg.po, fr := mcfg.fr, ap := false } rfl ext' s.structVariantNames (Model.Typed.Schema.size s + 1) s (by omega) hs
-    (fun _ h => h) 0 v ⟨Proofs.Typed.shapeW_of_shapeOK v hv.1, hv.2⟩
+    (fun _ h => h) 0 v ⟨Proofs.Typed.shapeW_of_shapeOK _ hap v hv.1, hv.2⟩
     (by rcases hd with h | h
         · exact .inl h
-        · exact .inr (by omega)) hx [] 0 (.inl rfl)
+        · exact .inr (by omega)) hx hv.1 [] 0 (.inl rfl)
   simp only [List.append_nil] at hag
   unfold Proofs.Typed.T at hag
   unfold Model.Typed.deTypedTop
